@@ -107,3 +107,24 @@ Lemma layout_seq_novalidation : forall l r data, N.of_nat (length data) <= lpt_m
   Ok (le_enc (lpt_size l) (N.of_nat (length data)) ++
       concat (if ar_autosort r && ar_lex r then sortb data else data)).
 Proof. intros. unfold enc_seq. cbn [bind]. rewrite layout_prefix by assumption. reflexivity. Qed.
+
+(* the length prefix has no representation for a count of 2^w or more: the reference encoder fails at exactly 2^w *)
+Lemma layout_prefix_overflow : forall l n, l <> L64 -> lpt_max l < n -> write_len l n = Err EOther.
+Proof.
+  intros l n Hl H. unfold write_len. destruct l; try congruence;
+    (replace (lpt_max _ <? n) with true by (symmetry; apply N.ltb_lt; exact H)); reflexivity.
+Qed.
+
+Lemma layout_seq_overflow : forall val l r data, l <> L64 -> lpt_max l < N.of_nat (length data) ->
+  (val = true -> check_bounds (ar_min r) (ar_max r) (N.of_nat (length data)) = Ok tt) ->
+  enc_seq val l r data = Err EOther.
+Proof.
+  intros val l r data Hl H Hb. unfold enc_seq.
+  destruct val; [rewrite (Hb eq_refl) |]; cbn [bind]; rewrite (layout_prefix_overflow l _ Hl H); reflexivity.
+Qed.
+
+Example layout_prefix_limits :
+  write_len L8 255 = Ok [255] /\ write_len L8 256 = Err EOther /\
+  write_len L16 65535 = Ok [255; 255] /\ write_len L16 65536 = Err EOther /\
+  write_len L32 4294967295 = Ok [255; 255; 255; 255] /\ write_len L32 4294967296 = Err EOther.
+Proof. repeat split; vm_compute; reflexivity. Qed.
